@@ -735,7 +735,7 @@ QUICK_CANARIES = True
 CLAIM = {
     "text": "Partial: decides four necessary conditions of completeness on every path (the candidate search does not stop on an unverified candidate; counted implies copied; the reader "
             "tolerates the keys creators omit and still places such entries; the reader visits every entry). It does NOT decide the piece-to-file mapping or hash equality, so a pass is "
-            "not a proof that rebuild completes - only that these structural ways of failing are absent. Defects G11-G13 (arithmetic / bookkeeping, repaired) are outside its reach. C13.4 also requires the v1 file list to be visited in the metafile's order; C13.5 that nothing prunes the search index after it was built; C13.7 that every piece is handed to the verifier (known finding G25 on this tree); C13.8 that the rebuild reader recognises the padding entries the creators write (repaired since: G27).",
+            "not a proof that rebuild completes - only that these structural ways of failing are absent. Defects G11-G13 (arithmetic / bookkeeping, repaired) are outside its reach. C13.4 also requires the v1 file list to be visited in the metafile's order; C13.5 that nothing prunes the search index after it was built; C13.7 that every piece is handed to the verifier (known finding G25 on this tree); C13.8 that the rebuild reader recognises the padding entries the creators write (repaired since: G27). C13.9 also asks that a file continued from the previous piece be left only where the code says nothing of it remains (otherwise undecided: the arithmetic is not evaluated).",
     "note": "Trusted: the same call-graph and origin-term machinery as C14. Honest scope: behaviour of _map_pieces and 100% verification of the rebuilt tree are run-time properties.",
     "technique": "CFG control dependence on verification atoms (origin terms), dominance of the copy over the counter, reader/writer key agreement, must-pass-through in reader loops",
     "design_ref": "DESIGN.md section 4, C13",
